@@ -46,14 +46,22 @@ def sub(s, b, e):
     return s[b:e] if b <= e else ''
 
 
-def led_line(typed):
-    """The text of one input line after the editing keys ^H ^W ^U."""
+def led_line(typed, ai='', pref_empty=False):
+    """The text of one input line after the editing keys ^H ^W ^U, and the autoindent after ^T ^D."""
     ln = ''
     for ch in typed:
         if ch in '\x08\x7f':
             ln = ln[:-1]
         elif ch == '\x15':
             ln = ''
+        elif ch == '\x14':                       # ^T: one more tab of autoindent
+            if len(ai) < 127:
+                ai += '\t'
+        elif ch == '\x04':                       # ^D: one byte less autoindent; without any, the first typed blank goes
+            if ai:
+                ai = ai[:-1]
+            elif pref_empty and ln[:1] in (' ', '\t') and ln:
+                ln = ln[1:]
         elif ch == '\x17':
             if ln:
                 r = len(ln) - 1
@@ -65,7 +73,7 @@ def led_line(typed):
                 ln = ln[:r]
         else:
             ln += ch
-    return ln
+    return ln, ai
 
 
 def led_input(pref, post, typed):
@@ -78,7 +86,7 @@ def led_input(pref, post, typed):
     segs = typed.split('\n')
     for idx, seg in enumerate(segs):
         last = idx == len(segs) - 1
-        ln = led_line(seg)
+        ln, ai = led_line(seg, ai, not pref)
         sp = 0
         while sp < len(ln) and ln[sp] in BLANK:
             sp += 1
@@ -236,7 +244,7 @@ class Ref8(c07.Ref):
             self.r = r1
             if not ln:
                 self.o = o1
-            self.finish(0)
+            self.finish(0 if ln else 1)     # a character-wise yank refreshes the sticky column (repo aba50d5), a line-wise one does not
             return
         if op == 'd':
             self.reg_put(reg, region, ln)
@@ -613,7 +621,7 @@ def model_shown(line):
 SAFE_MOT = list('hl0^$wbeWBEjk+-_G{}HML |')          # never fail (c needs that: its text would run as commands)
 ANY_MOT = SAFE_MOT + ['f', 'F', 't', 'T', ';', ',', '%']
 TYPED = ['a', 'b', 'xy', ' ', ' ', 'Q', '.', ')', 'é', '中', '\t', 'w_1', '-', 'foo bar', '  ']
-EDITKEYS = ['\x08', '\x17', '\x15', '\n']
+EDITKEYS = ['\x08', '\x17', '\x15', '\n', '\x08', '\x17', '\x15', '\n', '\x14', '\x04', '\x7f']
 
 
 def gen_typed(rng):
@@ -628,7 +636,7 @@ def gen_reg(rng):
     t = rng.below(10)
     if t < 5:
         return ''
-    return rng.choice(['a', 'b', 'A', 'B', 'a', 'A', 'c', '1', '2'])
+    return rng.choice(['a', 'b', 'A', 'B', 'a', 'A', 'c', 'C', '1', '2', '5', '9'])
 
 
 def gen_cnt(rng):
@@ -676,16 +684,96 @@ def gen_cmd(rng, text):
     return ['i', rng.choice(list('iaIAoO')), gen_typed(rng)]
 
 
-def gen_prog(rng, text):
-    ls = c07.lines_of(text)
-    prog = []
+MBTYPED = ['é', '中', 'éé', '中a', 'я€', 'Ａ', '\U00010400', 'aé', 'é b', 'ああ', '한x']
+
+
+def gen_mbtyped(rng):
+    out = ''
+    for _ in range(rng.range(1, 3)):
+        out += rng.choice(MBTYPED) if rng.chance(3, 4) else rng.choice(TYPED + ['\n', '\x08'])
+    return out
+
+
+def gen_insertish(rng, text):
+    """an insert-type command whose typed text is mostly multi-byte (the cursor after it is counted in characters)"""
+    t = rng.below(6)
+    if t < 3:
+        return ['i', rng.choice(list('iaIAoO')), gen_mbtyped(rng)]
+    if t < 5:
+        return ['ci', gen_reg(rng), gen_cnt(rng), rng.choice(['C', 's', 'S']), gen_mbtyped(rng)]
+    mkey, marg = gen_mot(rng, text, True)
+    return ['op', gen_reg(rng), gen_cnt(rng), 'c', 0, mkey if rng.chance(3, 4) else 'DBL', marg, gen_mbtyped(rng)]
+
+
+def gen_relative(rng):
+    """a command that acts at the cursor: shows where the previous command left it"""
+    t = rng.below(8)
+    if t < 3:
+        return ['x', gen_reg(rng), gen_cnt(rng), rng.choice(['x', 'x', 'X', '~', 'D'])]
+    if t < 4:
+        return ['r', 0, rng.choice(['z', 'é'])]
+    if t < 6:
+        return ['x', gen_reg(rng), 0, rng.choice(['p', 'P'])]
+    return ['m', rng.choice([0, 1, 2]), rng.choice(['h', 'l', 'j', 'k', 'w', 'b'])]
+
+
+def gen_spanning_delete(rng, text):
+    """deletes and yanks whose region is line-wise or crosses a line end character-wise (register 1 and the shift 1 -> 9)"""
+    t = rng.below(10)
+    reg = rng.choice(['', '', '', 'a', 'b', 'A', 'c', 'C'])
+    op = rng.choice(['d', 'd', 'd', 'y'])
+    if t < 3:
+        return [['op', reg, rng.choice([0, 0, 1, 2, 3]), op, 0, 'DBL', None, '']]
+    if t < 5:
+        return [['op', reg, rng.choice([0, 0, 1, 2]), op, 0, rng.choice(['j', 'k', '+', '-', 'G', '_', 'H', 'L']), None, '']]
+    pre = [['m', 0, '$']] if rng.chance(2, 3) else []
+    if t < 8:                 # from the last character of a line: w W } cross the line end, the region contains a newline
+        return pre + [['op', reg, rng.choice([0, 0, 1, 2, 3]), op, 0, rng.choice(['w', 'w', 'W', '}', 'e', 'E']), None, '']]
+    pre = [['m', 0, rng.choice(['0', '^'])]] if rng.chance(2, 3) else []
+    return pre + [['op', reg, rng.choice([0, 0, 1, 2]), op, 0, rng.choice(['b', 'B', '{', 'b']), None, '']]
+
+
+def gen_start(rng, ls, prog):
     if ls and rng.chance(2, 3):
         r = rng.below(len(ls))
         prog.append(['g', r + 1])
         if ls[r] and rng.chance(2, 3):
             prog.append(['m', rng.range(1, max(1, len(ls[r]))), ' '])
-    for _ in range(rng.choice([1, 1, 2, 2, 3, 4, 6, 9, 12])):
-        prog.append(gen_cmd(rng, text))
+
+
+def gen_prog(rng, text):
+    ls = c07.lines_of(text)
+    prog = []
+    gen_start(rng, ls, prog)
+    shape = rng.below(20)
+    if shape < 3:
+        # several line / multi-line deletes, then puts from the numbered registers
+        for _ in range(rng.range(2, 7)):
+            prog += gen_spanning_delete(rng, text)
+            if rng.chance(1, 3):
+                prog.append(c07.gen_motion(rng, text))
+        for _ in range(rng.range(1, 4)):
+            prog.append(['x', rng.choice(list('123456789')), rng.choice([0, 0, 0, 1, 2, 3]), rng.choice(['p', 'P'])])
+            if rng.chance(1, 3):
+                prog.append(gen_cmd(rng, text))
+    elif shape < 6:
+        # an insert with multi-byte text, then a command relative to the cursor it leaves
+        for _ in range(rng.range(1, 3)):
+            prog.append(gen_insertish(rng, text))
+            for _ in range(rng.range(1, 2)):
+                prog.append(gen_relative(rng))
+    elif shape < 8:
+        # a character-wise yank that moves the cursor back, then j / k (sticky column), then an edit at the cursor
+        prog.append(['m', rng.choice([0, 2, 3]), rng.choice(['w', 'e', '$', 'l', 'W'])])
+        key = rng.choice(['b', 'h', '0', '^', 'B', 'F', 'T', '|'])
+        chars = [c for c in text if c != '\n']
+        arg = (rng.choice(chars) if chars else 'q') if key in 'FT' else None
+        prog.append(['op', gen_reg(rng), gen_cnt(rng) if key != '0' else 0, 'y', 0, key, arg, ''])
+        prog.append(['m', rng.choice([0, 1, 2]), rng.choice(['j', 'k'])])
+        prog.append(gen_relative(rng))
+    else:
+        for _ in range(rng.choice([1, 1, 2, 2, 3, 4, 6, 9, 12])):
+            prog.append(gen_cmd(rng, text))
     return prog
 
 
